@@ -636,7 +636,7 @@ def gen_auth_scenario(rng):
             st = dict(op='create_pair', sender=who, assets=[{'native': 'uaura'}, {'token': 'A'}], whitelist=['alice'], _auth=(who == owner), _once=True)
         steps.append(st)
     # final probe: the current owner can still act, every former owner cannot
-    for f in former[-2:]:
+    for f in [x for x in former[-2:] if x != owner]:
         steps.append(dict(op='exec_raw', contract='factory', sender=f, msg={'update_config': {'owner': None, 'token_code_id': 5, 'pair_code_id': None}}, _auth=False))
     steps.append(dict(op='exec_raw', contract='factory', sender=owner, msg={'update_config': {'owner': None, 'token_code_id': 6, 'pair_code_id': None}}, _auth=True, _must=True))
     return case
